@@ -400,3 +400,223 @@ SHAPE_ASSUMPTIONS = {
             "quick tier builds all optional features at once; the thorough tier also builds each feature alone and none",
             "'impls that claim no tracing exist only for pointer-free types' is decided by compile probes with accepted twins"],
 }
+
+
+# ============================================================================= WriteCap (C13)
+PT = "RefLock<Option<Gc<'gc, u32>>>"
+WC_HEAD = "use gc_arena::{Gc, RefLock, barrier::{Write, field, Unlock}};\nuse std::cell::RefCell;\n"
+WRITE_FACT_PROBES = {
+    # fact name: probe source; the fact is TRUE iff the probe is accepted
+    "FromMut": WC_HEAD + f"pub fn f<'a, 'gc>(x: &'a mut {PT}) -> &'a mut Write<{PT}> {{ Write::from_mut(x) }}\n",
+    "FromStaticAny": WC_HEAD + f"pub fn f<'a, 'gc>(x: &'a {PT}) -> &'a Write<{PT}> {{ Write::from_static(x) }}\n",
+    "AssumeSafe": WC_HEAD + f"pub fn f<'a, 'gc>(x: &'a {PT}) -> &'a Write<{PT}> {{ Write::assume(x) }}\n",
+    "DerefRef": WC_HEAD + f"pub fn f<'a, 'b, 'gc>(w: &'a Write<&'b {PT}>) -> &'a Write<{PT}> {{ w.as_deref() }}\n",
+    "DerefBox": WC_HEAD + f"pub fn f<'a, 'gc>(w: &'a Write<Box<{PT}>>) -> &'a Write<{PT}> {{ w.as_deref() }}\n",
+    "DerefVec": WC_HEAD + f"pub fn f<'a, 'gc>(w: &'a Write<Vec<{PT}>>) -> &'a Write<[{PT}]> {{ w.as_deref() }}\n",
+    "DerefRc": WC_HEAD + f"pub fn f<'a, 'gc>(w: &'a Write<std::rc::Rc<{PT}>>) -> &'a Write<{PT}> {{ w.as_deref() }}\n",
+    "DerefArc": WC_HEAD + f"pub fn f<'a, 'gc>(w: &'a Write<std::sync::Arc<{PT}>>) -> &'a Write<{PT}> {{ w.as_deref() }}\n",
+    "IndexUnique": WC_HEAD + f"pub fn f<'a, 'gc>(w: &'a Write<Vec<{PT}>>) -> &'a Write<{PT}> {{ &w[0] }}\n",
+    "FieldThroughDeref": WC_HEAD + f"pub struct S<'gc> {{ pub f: {PT} }}\npub fn f<'a, 'gc>(w: &'a Write<Box<S<'gc>>>) -> &'a Write<{PT}> {{ field!(w, S, f) }}\n",
+    "FieldThroughRef": WC_HEAD + f"pub struct S<'gc> {{ pub f: {PT} }}\npub fn f<'a, 'b, 'gc>(w: &'a Write<&'b S<'gc>>) -> &'a Write<{PT}> {{ field!(w, S, f) }}\n",
+    "UnlockNoWrite": WC_HEAD + f"pub fn f<'a, 'gc>(l: &'a {PT}) -> &'a RefCell<Option<Gc<'gc, u32>>> {{ l.unlock_unchecked() }}\n",
+    "UnlockNoWrite2": WC_HEAD + f"pub fn f<'a, 'gc>(l: &'a {PT}) -> &'a RefCell<Option<Gc<'gc, u32>>> {{ l.as_ref_cell() }}\n",
+    "CellHoldsGc": "use gc_arena::{Collect, Gc};\npub fn is_collect<'gc, T: Collect<'gc>>() {}\npub fn f<'gc>() { is_collect::<'gc, std::cell::Cell<Option<Gc<'gc, u32>>>>() }\n",
+    "RefCellHoldsGc": "use gc_arena::{Collect, Gc};\npub fn is_collect<'gc, T: Collect<'gc>>() {}\npub fn f<'gc>() { is_collect::<'gc, std::cell::RefCell<Option<Gc<'gc, u32>>>>() }\n",
+    "AsWriteOption": WC_HEAD + f"pub fn f<'a, 'gc>(w: &'a Write<Option<{PT}>>) -> Option<&'a Write<{PT}>> {{ w.as_write() }}\n",
+    # positive twins of the projection machinery (must stay usable)
+    "FieldDirect": WC_HEAD + f"pub struct S<'gc> {{ pub f: {PT} }}\npub fn f<'a, 'gc>(w: &'a Write<S<'gc>>) -> &'a Write<{PT}> {{ field!(w, S, f) }}\n",
+    "UnlockWithWrite": WC_HEAD + f"pub fn f<'a, 'gc>(w: &'a Write<{PT}>) -> &'a RefCell<Option<Gc<'gc, u32>>> {{ w.unlock() }}\n",
+}
+# facts the property statement forbids outright (each is a clause of C13)
+FORBIDDEN_FACTS = {"FromStaticAny": "Write references cannot be forged for data that may hold pointers (from_static)",
+                   "AssumeSafe": "Write references cannot be forged (assume must be unsafe)",
+                   "FieldThroughDeref": "field projection cannot pass through a dereference (Box)",
+                   "FieldThroughRef": "field projection cannot pass through a dereference (&)",
+                   "UnlockNoWrite": "unlocking needs a Write reference (unlock_unchecked must be unsafe)",
+                   "UnlockNoWrite2": "unlocking needs a Write reference (as_ref_cell must be unsafe)",
+                   "CellHoldsGc": "plain Cell cannot hold pointers", "RefCellHoldsGc": "plain RefCell cannot hold pointers"}
+REQUIRED_FACTS = ["FromMut", "DerefBox", "DerefVec", "IndexUnique", "AsWriteOption", "FieldDirect", "UnlockWithWrite"]
+
+EXPLOIT_PRELUDE = """
+use gc_arena::{Arena, Collect, Gc, RefLock, Rootable, barrier::Write};
+use std::{cell::Cell, rc::Rc, sync::Arc};
+pub struct Tok(Rc<Cell<bool>>);
+impl Drop for Tok { fn drop(&mut self) { self.0.set(true); } }
+gc_arena::static_collect!(Tok);
+type Slot<'gc> = RefLock<Option<Gc<'gc, Tok>>>;
+fn verdict(dropped: bool, count: usize, expect: usize) -> ! {
+    // the adopted value is still reachable from the root: it must not have been destructed
+    if dropped || count < expect { println!("UNSOUND dropped={dropped} count={count} expected>={expect}"); std::process::exit(3) }
+    println!("sound"); std::process::exit(0)
+}
+"""
+EXPLOITS = {
+    "Ref": EXPLOIT_PRELUDE + """
+#[derive(Collect)] #[collect(no_drop)] struct Root<'gc> { slot: Gc<'gc, Slot<'gc>> }
+fn main() {
+    let flag = Rc::new(Cell::new(false));
+    let mut arena = Arena::<Rootable![Root<'_>]>::new(|mc| Root { slot: Gc::new(mc, RefLock::new(None)) });
+    arena.finish_marking();                       // the slot object is now black
+    let f2 = flag.clone();
+    arena.mutate(|mc, root| {
+        let mut r: &Slot<'_> = Gc::as_ref(root.slot);        // no barrier
+        let w = Write::from_mut(&mut r).as_deref();          // &Write<Slot> for an un-barriered object
+        *w.unlock().borrow_mut() = Some(Gc::new(mc, Tok(f2)));
+    });
+    arena.finish_cycle();
+    let n = arena.metrics().total_gc_count();
+    verdict(flag.get(), n, 2)
+}
+""",
+    "Rc": EXPLOIT_PRELUDE + """
+#[derive(Collect)] #[collect(no_drop)] struct Root<'gc> { holder: Gc<'gc, Rc<Slot<'gc>>> }
+fn main() {
+    let flag = Rc::new(Cell::new(false));
+    let mut arena = Arena::<Rootable![Root<'_>]>::new(|mc| Root { holder: Gc::new(mc, Rc::new(RefLock::new(None))) });
+    arena.finish_marking();                       // the holder is now black
+    let f2 = flag.clone();
+    arena.mutate(|mc, root| {
+        let mut rc: Rc<Slot<'_>> = Rc::clone(&root.holder);   // shares storage with the black holder; no barrier
+        let w = Write::from_mut(&mut rc).as_deref();
+        *w.unlock().borrow_mut() = Some(Gc::new(mc, Tok(f2)));
+    });
+    arena.finish_cycle();
+    let n = arena.metrics().total_gc_count();
+    verdict(flag.get(), n, 2)
+}
+""",
+    "Arc": EXPLOIT_PRELUDE + """
+#[derive(Collect)] #[collect(no_drop)] struct Root<'gc> { holder: Gc<'gc, Arc<Slot<'gc>>> }
+fn main() {
+    let flag = Rc::new(Cell::new(false));
+    let mut arena = Arena::<Rootable![Root<'_>]>::new(|mc| Root { holder: Gc::new(mc, Arc::new(RefLock::new(None))) });
+    arena.finish_marking();
+    let f2 = flag.clone();
+    arena.mutate(|mc, root| {
+        let mut a: Arc<Slot<'_>> = Arc::clone(&root.holder);
+        let w = Write::from_mut(&mut a).as_deref();
+        *w.unlock().borrow_mut() = Some(Gc::new(mc, Tok(f2)));
+    });
+    arena.finish_cycle();
+    let n = arena.metrics().total_gc_count();
+    verdict(flag.get(), n, 2)
+}
+""",
+    # positive twin: the same adoption through the sanctioned path must be sound (and compile)
+    "Sanctioned": EXPLOIT_PRELUDE + """
+#[derive(Collect)] #[collect(no_drop)] struct Root<'gc> { slot: Gc<'gc, Slot<'gc>>, boxed: Gc<'gc, Box<Slot<'gc>>> }
+fn main() {
+    let flag = Rc::new(Cell::new(false));
+    let mut arena = Arena::<Rootable![Root<'_>]>::new(|mc| Root { slot: Gc::new(mc, RefLock::new(None)), boxed: Gc::new(mc, Box::new(RefLock::new(None))) });
+    arena.finish_marking();
+    let f2 = flag.clone();
+    arena.mutate(|mc, root| {
+        *Gc::write(mc, root.slot).unlock().borrow_mut() = Some(Gc::new(mc, Tok(f2.clone())));
+        *Gc::write(mc, root.boxed).as_deref().unlock().borrow_mut() = Some(Gc::new(mc, Tok(f2)));
+    });
+    arena.finish_cycle();
+    let n = arena.metrics().total_gc_count();
+    verdict(flag.get(), n, 4)
+}
+""",
+}
+
+
+def run_program(src, name, outdir):
+    """Compile a client program against the built rlib and run it.  Returns (compiled, exit code, output)."""
+    rlib, deps = rlib_paths()
+    os.makedirs(outdir, exist_ok=True)
+    path = os.path.join(outdir, name + ".rs")
+    with open(path, "w") as f:
+        f.write(src)
+    exe = os.path.join(outdir, name + ".bin")
+    p = subprocess.run(["rustc", "--edition", "2024", "-o", exe, "--extern", f"gc_arena={rlib}", "-L", f"dependency={deps}",
+                        "--cap-lints", "allow", "--error-format=short", path], stdout=subprocess.PIPE, stderr=subprocess.PIPE, text=True)
+    if p.returncode != 0:
+        return False, None, p.stderr[-800:], path
+    q = subprocess.run([exe], stdout=subprocess.PIPE, stderr=subprocess.PIPE, text=True, timeout=120)
+    return True, q.returncode, (q.stdout + q.stderr)[-400:], path
+
+
+def check_writecap(tier):
+    prop = "C13"
+    t0 = time.time()
+    d = os.path.join(WORK, "sat-C13")
+    os.makedirs(d, exist_ok=True)
+    build_sat()
+    # (1) measure the facts
+    facts, diags = {}, {}
+    for name, src in WRITE_FACT_PROBES.items():
+        facts[name], diags[name] = probe_compile(src, "wc_" + name, os.path.join(d, "probes"))
+    viols = []
+    for f in REQUIRED_FACTS:
+        if not facts[f]:
+            raise ToolError(f"probe for the sanctioned move {f} is rejected: the probes no longer match the API ({diags[f][-300:]})")
+    for f, clause in FORBIDDEN_FACTS.items():
+        if facts[f]:
+            viols.append({"rule": "fact:" + f, "what": clause, "program": os.path.join(d, "probes", "wc_" + f + ".rs")})
+    # (2) TLC: with the measured facts, is there a sequence of moves that yields an un-barriered capability?
+    consts = {k: ("TRUE" if facts[k] else "FALSE") for k in
+              ("FromMut", "FromStaticAny", "AssumeSafe", "DerefRef", "DerefBox", "DerefVec", "DerefRc", "DerefArc", "IndexUnique",
+               "AsWriteOption")}
+    consts["FieldThroughDeref"] = "TRUE" if (facts["FieldThroughDeref"] or facts["FieldThroughRef"]) else "FALSE"
+    consts["UnlockNoWrite"] = "TRUE" if (facts["UnlockNoWrite"] or facts["UnlockNoWrite2"]) else "FALSE"
+    consts["CellHoldsGc"] = "TRUE" if (facts["CellHoldsGc"] or facts["RefCellHoldsGc"]) else "FALSE"
+    tlc_runs, recipes = [], []
+    # one run per suspect non-owning container kind (BFS stops at the first counterexample), plus the full run
+    for label, override in [("measured", {})] + [(f"only_{k}", {kk: "FALSE" for kk in ("DerefRef", "DerefRc", "DerefArc") if kk != k})
+                                                 for k in ("DerefRef", "DerefRc", "DerefArc") if facts[k]]:
+        c2 = dict(consts)
+        c2.update(override)
+        r = run_tlc("WriteCap", gcv.cfg_text(spec="Spec", constants=c2, invariants=["C13_NoUnbarrieredAdoption"], constraints=["Bounded"]),
+                    "wc_" + label, d, workers=2, timeout=600, xmx="2g")
+        txt = open(r["out"], errors="replace").read()
+        rec = re.findall(r'recipe = (<<.*?>>)\n', txt, re.S)
+        tlc_runs.append({"name": label, "distinct": r["distinct"], "generated": r["generated"], "error": r["error"]})
+        if r["error"] and "violated" in r["error"]:
+            recipes.append({"config": label, "recipe": re.sub(r"\s+", " ", rec[-1]) if rec else "?"})
+        elif r["error"]:
+            raise ToolError(f"TLC run WriteCap/{label} failed: {r['error']} (see {r['out']})")
+    # (3) render the recipes the model found: run the exploit program of each non-owning kind whose
+    #     as_deref compiles; VIOLATION iff it compiles AND the adopted value is lost while reachable
+    programs = {}
+    for k, fact in (("Ref", "DerefRef"), ("Rc", "DerefRc"), ("Arc", "DerefArc")):
+        compiled, rc, out, path = run_program(EXPLOITS[k], "exploit_" + k, os.path.join(d, "programs"))
+        programs[k] = {"compiled": compiled, "exit": rc, "fact": facts[fact]}
+        if compiled and rc != 0:
+            viols.append({"rule": "exploit:" + k, "what": f"Write::from_mut(&mut {k}).as_deref().unlock() adopted a pointer into an un-barriered marked object; {out.strip()[-200:]}",
+                          "program": path})
+        if compiled != facts[fact]:
+            raise ToolError(f"exploit template {k} and fact probe {fact} disagree (compiled={compiled}, fact={facts[fact]})")
+    compiled, rc, out, path = run_program(EXPLOITS["Sanctioned"], "sanctioned", os.path.join(d, "programs"))
+    programs["Sanctioned"] = {"compiled": compiled, "exit": rc}
+    if not compiled:
+        raise ToolError("the sanctioned-path program does not compile: " + out)
+    if rc != 0:
+        viols.append({"rule": "sanctioned", "what": "adoption through Gc::write(..).unlock() / as_deref(Box) lost the value: " + out.strip()[-200:], "program": path})
+    if recipes and not [v for v in viols]:
+        # the model says the measured facts admit an un-barriered capability, but no rendered program misbehaved
+        raise ToolError(f"WriteCap finds a recipe that no template renders: {recipes}")
+    os.makedirs(os.path.join(WORK, "replays"), exist_ok=True)
+    for x in viols[:6]:
+        path = os.path.join(WORK, "replays", f"C13_writecap_{x['rule'].replace(':', '-')}.json")
+        json.dump({"property": prop, "engine": "writecap", "rule": "C13." + x["rule"], "detail": x, "recipes": recipes}, open(path, "w"), indent=1)
+        print(f"VIOLATION property={prop} replay={path}")
+    cov = {
+        "evaluations": len(WRITE_FACT_PROBES) + len(programs), "distinct_nontrivial": len(WRITE_FACT_PROBES) + len(programs),
+        "rule": "one compile probe per atomic fact of the capability model (each constructor of Write, each DerefWrite / IndexWrite impl kind, "
+                "field! through a dereference, unlocking without a Write, Cell / RefCell as Collect) with accepted twins; TLC searches all move "
+                "sequences up to length 5 over the measured facts; one executable program per non-owning container kind plus a sanctioned-path twin",
+        "samples": [{"fact": k, "compiles": v} for k, v in list(facts.items())[:6]] + [{"program": k, **v} for k, v in programs.items()],
+        "states": sum(r["distinct"] for r in tlc_runs), "transitions": sum(r["generated"] for r in tlc_runs),
+        "facts_measured": facts, "tlc_runs": tlc_runs, "recipes_found_by_tlc": recipes, "programs": programs,
+        "traces_validated_against_impl": len(programs),
+        "checker_cmd": "rustc probes ; tlc WriteCap.tla (constants = measured facts) ; rustc + run exploit programs",
+    }
+    write_evidence(prop, tier, "exploration", cov, [
+        "WriteCap.tla models the API's intended capability discipline, not rustc: it decides 'given these facts no chain of <= 5 moves yields an "
+        "un-barriered Write'; the universal claim over all safe programs rests on the probes being the right facts",
+        "a recipe is a violation only if its rendered program compiles and loses a reachable value at run time; flipped facts that the "
+        "property statement forbids by name (forged Write, field! through a dereference, unlock without Write, Cell/RefCell holding pointers) "
+        "are violations by themselves"], time.time() - t0, len(viols))
+    return 1 if viols else 0
